@@ -48,6 +48,21 @@ Theorem C04_json_import : forall fmt_float float_of idmod cfg s top x e,
 Proof. exact json_import. Qed.
 Print Assumptions C04_json_import.
 
+(** exporting an exported tree changes nothing - proved for schemas without choices (with choices the
+    correspondence run compares the re-imported tree with the export on every case) - so there
+    "decoding the produced JSON with the library's own reader and exporting again yields the same tree" *)
+Theorem C04_export_idempotent : forall s, cfree s = true -> forall d n, visit n s (visit n s d) = visit n s d.
+Proof. exact visit_idem. Qed.
+Print Assumptions C04_export_idempotent.
+
+Theorem C04_roundtrip_same_tree : forall fmt_float float_of idmod cfg s top d e,
+  cfree s = true -> is_leaf s = false ->
+  rt_ok fmt_float float_of idmod cfg s (visit false s d) = true -> wfd s (visit false s d) = true ->
+  enode cfg idmod top s (visit false s d) = Some e ->
+  jimport s (rd fmt_float float_of e) = ROk (Ok (visit false s d)).
+Proof. exact roundtrip_same_tree. Qed.
+Print Assumptions C04_roundtrip_same_tree.
+
 (** every scalar of every non-union type decodes to itself *)
 Theorem C04_scalar_roundtrip : forall fmt_float float_of idmod cfg ty lmod v e,
   typed fmt_float float_of idmod cfg ty v = true -> eitem cfg idmod lmod v = Some e ->
